@@ -112,6 +112,17 @@ func VerifRun_C18b() {
 		verifVFSPut(f1, []byte("return 1\n"))
 		files = append(files, f1)
 	}
+	// optionally a namesake in the other directory that stays (duplicate-named modules)
+	twin := verifBool("twin")
+	d2 := "a"
+	if d1 == "a" {
+		d2 = "b"
+	}
+	if twin {
+		f2 := root + "/" + d2 + "/x.lua"
+		verifVFSPut(f2, []byte("return 2\n"))
+		files = append(files, f2)
+	}
 	p := check.CreateAllProject(files, nil, nil)
 	p.HandleCheck()
 	count6 := func() int {
@@ -123,23 +134,31 @@ func VerifRun_C18b() {
 		}
 		return n
 	}
-	match := d1 == p1
+	exists := func(present bool) bool { return (present && d1 == p1) || (twin && d2 == p1) }
 	verifReach("initial")
-	if (count6() == 0) != (startsWith && match) {
+	if (count6() == 0) != exists(startsWith) {
 		verifViolation("", "initial analysis: type-6 diagnostic does not agree with the existence of the module file")
 	}
-	// flip the existence of the file with a watched-file event
-	if startsWith {
-		verifVFSDel(f1)
-		p.HandleFileEventChanges([]check.FileEventStruct{{StrFile: f1, Type: check.FileEventDeleted}})
-	} else {
-		verifVFSPut(f1, []byte("return 1\n"))
-		p.HandleFileEventChanges([]check.FileEventStruct{{StrFile: f1, Type: check.FileEventCreated}})
-	}
-	nowPresent := !startsWith
-	verifReach("after-event")
-	if (count6() == 0) != (nowPresent && match) {
-		verifViolation("", "after a create/delete event the type-6 diagnostic does not agree with the existence of the module file")
+	// a short history of create/delete events of f1
+	present := startsWith
+	for k := 0; k < verifParam("EVENTS"); k++ {
+		if present {
+			verifVFSDel(f1)
+			p.HandleFileEventChanges([]check.FileEventStruct{{StrFile: f1, Type: check.FileEventDeleted}})
+		} else {
+			verifVFSPut(f1, []byte("return 1\n"))
+			p.HandleFileEventChanges([]check.FileEventStruct{{StrFile: f1, Type: check.FileEventCreated}})
+		}
+		present = !present
+		if verifBool("touchmain") {
+			// the requiring file itself is announced as changed afterwards (saved again by the user)
+			p.HandleFileEventChanges([]check.FileEventStruct{{StrFile: mainF, Type: check.FileEventChanged}})
+		}
+		verifReach("after-event")
+		if (count6() == 0) != exists(present) {
+			verifViolation("", "after a create/delete event the type-6 diagnostic does not agree with the existence of the module file")
+			return
+		}
 	}
 }
 
